@@ -149,4 +149,37 @@ PROPS = {
         "trusted_base": ["model: lean/CliUtils/Model/Poll.lean (hand-written); spec notions: lean/CliUtils/Spec/C17.lean",
                          "harness/overlay/zz_verif_c17_statusreaders.go (build-time overlay exposing podControllerStatusReader.readStatus; /repo untouched)"],
     },
+    "C14": {
+        "level_text": ("Machine-checked Lean 4 theorems, for every graph (any vertex type, any size): the model of Graph.Sort partitions the "
+                       "vertices into layers plus a remaining set; every dependency of a layered vertex is in a strictly earlier layer; a "
+                       "vertex of layer k+1 has a dependency in layer k (layer index = length of the longest dependency chain); the "
+                       "remaining set is exactly the set of vertices that reach a cycle; any two presentations of the same graph give the "
+                       "same layers, and after sorting with the documented order (proved to be a strict total order on ids) identical "
+                       "lists; ReverseSetList yields the exact reverse. The model is tied to the code by running the real "
+                       "Graph.Sort/HydrateSetList/ReverseSetList/DependencyGraph/SortObjs/ReverseSortObjs on the same inputs."),
+        "level_note": ("Trusted: Lean kernel (+propext, Quot.sound, Classical.choice), the hand-written model, the Go harness and driver. "
+                       "The proof is about the model; the code is covered as far as the correspondence run explores (reported in evidence)."),
+        "technique": "Lean 4 proof (induction over the sort loop, walks, pigeonhole) + differential correspondence against the real Go code",
+        "domains": ["graph", "depgraph"],
+        "rule": ("graph: every digraph with self-loops on <= 3 (quick) / <= 4 (thorough) labelled vertices over 5 id universes, each in "
+                 "several vertex/edge orders (every case carries two shuffled presentations of the same graph), plus random graphs "
+                 "(hidden DAG + 0..4 arbitrary edges) on <= 12 and <= 40 ids drawn from all kinds of the ordering table and kinds outside "
+                 "it; variants with repeated AddVertex/AddEdge, vertices introduced only by AddEdge, objects for a subset of the ids, "
+                 "namespace edges arriving implicitly, explicitly or both. depgraph: random object sets (<= 14 objects incl. Namespace and "
+                 "CRD objects) with depends-on and apply-time-mutation annotations (well-formed, duplicated, external, unparsable) run "
+                 "through the real DependencyGraph and SortObjs. A case is non-trivial if it has >= 1 edge and >= 2 vertices (graph) / "
+                 ">= 1 edge (depgraph); distinct = distinct canonical input JSON."),
+        "exhaustive_quick": False,
+        "explanation": ("Theorems: sort_partition, sort_edges_strict, sort_minimal, layer_is_longest_chain, cycle_set_exact, "
+                        "sort_perm_invariant, less_strict_total, hydrate_deterministic, reverse_is_reverse (see lean/CliUtils/Props/C14.lean). "
+                        "Tie: the real graph package is run on the same vertex/edge sequences (plain API and unstructured objects with "
+                        "depends-on annotations) and every output is compared with the model's. Search: an oracle that shares nothing "
+                        "with the model (Warshall reachability, cyclic = reaches a self-reaching vertex, layer = longest chain, "
+                        "lexicographic key order) judges the implementation's own outputs: partition, strictness, minimality, exact "
+                        "cycle set and cycle edges, order inside each layer, exact reversal, equality of the two presentations."),
+        "assumptions": ["Go map iteration order is unobservable after the sorts the code applies; raw Sort layers are compared as sets",
+                        "Go string comparison (bytewise) and Lean String.lt (by code point) agree on valid UTF-8"],
+        "trusted_base": ["model: lean/CliUtils/Model/Graph.lean (hand-written; removeVertex modelled as filtering, justified by theorem removeVertex_is_filter)",
+                         "model: lean/CliUtils/Model/DepEdges.lean (edge builders of DependencyGraph on parsed annotations; annotation parsing itself is C15/C18)"],
+    },
 }
